@@ -326,6 +326,10 @@ def norm_tokens(lx, split_shift=False):
             out.append(("punct", ">"))
         elif split_shift and t.kind == "punct" and t.text == ">>>":
             out.extend([("punct", ">")] * 3)
+        elif t.kind == "str" and "\r" in t.text:
+            # a physical line terminator inside a literal that spans lines (raw string, spliced string) is a newline whatever
+            # its spelling: the 'newlines' option rewrites it together with all others
+            out.append((t.kind, t.text.replace("\r\n", "\n").replace("\r", "\n")))
         else:
             out.append((t.kind, t.text))
     return out
